@@ -64,6 +64,7 @@ package compat
 // trusted facts about the two standard-library functions (uninterpreted otherwise): the result of ToValidUTF8 is
 // valid, and a valid string is returned unchanged
 //@ axiom @to_valid_is_valid: forall s string, r string :: { strings.ToValidUTF8(s, r) } utf8.ValidString(r) ==> utf8.ValidString(strings.ToValidUTF8(s, r))
+//@ axiom @replacement_is_valid: utf8.ValidString(replacementCharacter)
 //@ contract repairInvalidUTF8InFailure
 //@   props C17 C18
 // every failure the walk leaves behind has a valid message (a message is skipped only when it already is valid),
